@@ -58,10 +58,12 @@ def _one(args) -> dict:
         shutil.copytree(Path(repo) / PKG_REL, dst, ignore=shutil.ignore_patterns("__pycache__"))
         if not apply_edit(tmp, mut):
             return dict(id=mut["id"], kind=mut["kind"], status="skipped")
-        try:
-            compile((dst / (mut.get("file") or mut["edits"][0]["file"])).read_text(), "x", "exec")
-        except SyntaxError as e:
-            return dict(id=mut["id"], kind=mut["kind"], status="bad-mutant", detail=str(e))
+        mfile = mut.get("file") or mut["edits"][0]["file"]
+        if mfile.endswith(".py"):
+            try:
+                compile((dst / mfile).read_text(), "x", "exec")
+            except SyntaxError as e:
+                return dict(id=mut["id"], kind=mut["kind"], status="bad-mutant", detail=str(e))
         code, ev = run_property(pid, mod.rules, mod.LEVEL, "quick", tmp, None, 0, None, quiet=True)
         viol = ev.get("coverage", {}).get("violations_new", []) if code != 2 else []
         rules_hit = sorted({v["rule"] for v in viol})
